@@ -191,6 +191,10 @@ for _pid in ("C02", "C14"):
     PROPS[_pid]["theorem_modules"] = PROPS[_pid]["theorem_modules"] + ["DecProofs.Properties.C02GenTinyAfter"]
 PROPS["C02"]["static_modules"] = PROPS["C02"]["static_modules"] + ["DecProofs.Static.Translated3"]
 
+# the digit-group helpers of bid128_to_string, translated (Code3) and proved: split into groups of three digits, bridges to the formatter model
+for _pid in ("C05", "C15"):
+    PROPS[_pid]["theorem_modules"] = PROPS[_pid]["theorem_modules"] + ["DecProofs.Properties.C05GenMidi"]
+
 # secondary build configuration of C02 (thorough tier): the tininess-after-rounding cargo feature
 PROPS["C02"]["feature_configs"] = [{"feature": "tiny_after", "judge_tiny_after": True}]
 
